@@ -48,7 +48,7 @@ def run(tier):
         if not thorough and cn not in ("v2c", "v3-md5"):
             scr = [s for si, s in enumerate(scr) if (si + SEED) % 5 == 0]       # quick: sample the other configurations
         for si, s in enumerate(scr):
-            items.append((cn, std[cn], s, (si + ci + SEED) % 4))
+            items.append((cn, std[cn], s, (si + ci + SEED) % 28))
             chk.case((cn, json.dumps(s, sort_keys=True)), nontrivial=any(a["a"] == "inject" for a in s))
     failures, rec, runs = sesscheck.replay_and_judge(chk, "c04", items)
     for f in failures:
